@@ -432,7 +432,15 @@ pub fn random_step(w: &mut World, sc: &Scenario, rec: &mut Recorder) {
             let a = log_uniform(w, 1, 50) as u64;
             let b = log_uniform(w, 1, 50) as u64;
             let sp = w.pool_sqrt_price(&pool);
-            let ix = w.ix_increase_by_amounts(&p, &owner, a, b, MIN_SQRT_PRICE.max(sp - sp / 100), (sp + sp / 100).min(MAX_SQRT_PRICE));
+            // price bounds: a window around the price, exactly the price, or just missing it on either side
+            let (lo_sp, hi_sp) = match w.rng.gen_range(0..6) {
+                0 => (sp, sp),
+                1 => (sp + 1, (sp + sp / 100).min(MAX_SQRT_PRICE)),
+                2 => (MIN_SQRT_PRICE.max(sp - sp / 100), sp - 1),
+                3 => (MIN_SQRT_PRICE, sp),
+                _ => (MIN_SQRT_PRICE.max(sp - sp / 100), (sp + sp / 100).min(MAX_SQRT_PRICE)),
+            };
+            let ix = w.ix_increase_by_amounts(&p, &owner, a, b, lo_sp, hi_sp);
             rec.exec(w, &ix, false, json!(null));
         }
         42..=45 => {
@@ -480,8 +488,17 @@ pub fn random_step(w: &mut World, sc: &Scenario, rec: &mut Recorder) {
             let exact_in = w.rng.gen_bool(0.6);
             let amount = (log_uniform(w, 0, (sc.liq_bits.1 + 4).min(62)) as u64).max(1);
             let limit = random_limit(w, sc, &pool, a_to_b);
-            let threshold = if exact_in { 0 } else { u64::MAX };
-            let ix = w.ix_swap(&pool, &trader, amount, threshold, limit, exact_in, a_to_b, v2);
+            let mut threshold = if exact_in { 0 } else { u64::MAX };
+            let mut ix = w.ix_swap(&pool, &trader, amount, threshold, limit, exact_in, a_to_b, v2);
+            if w.rng.gen_bool(0.35) {
+                // slippage threshold right at / one off what the swap really delivers (exact-in: minimum output)
+                // or takes (exact-out: maximum input)
+                if let Some((da, db, _)) = dry_run(w, sc, &trader, &ix) {
+                    let (d_in, d_out) = if a_to_b { (-da, db) } else { (-db, da) };
+                    threshold = if exact_in { near(w, d_out.max(0) as u64, 0) } else { near(w, d_in.max(0) as u64, u64::MAX) };
+                    ix = w.ix_swap(&pool, &trader, amount, threshold, limit, exact_in, a_to_b, v2);
+                }
+            }
             rec.exec(w, &ix, false, json!(null));
         }
         80..=84 => {
